@@ -1107,6 +1107,43 @@ def term_int(t):
     return None
 
 
+def found_offset_sum(a, b):
+    """`start + offset` where offset is the payload of `position(..)` run over the part of a slice that begins at `start`
+    (`x.iter().skip(start)`, `x.get(start..)?.iter()`, `x[start..].iter()`): an element exists at start + offset, so the
+    sum is a valid index of x (< isize::MAX) whatever `start` is.  Returns the slice term x, else None."""
+    for start, off in ((a, b), (b, a)):
+        off = strip_transparent(off)
+        if not (isinstance(off, tuple) and len(off) == 3 and off[0] == 'field' and off[2] == '0' and isinstance(off[1], tuple) and off[1][0] == 'downcast' and off[1][2] == 'Some'):
+            continue
+        pc = off[1][1]
+        while isinstance(pc, tuple) and pc and pc[0] in ('ref', 'deref'):
+            pc = pc[1]
+        if not (isinstance(pc, tuple) and pc[0] == 'call' and pc[1].split('::')[-1] in ('position',) and pc[2]):
+            continue
+        it = pc[2][0]
+        while isinstance(it, tuple) and it and (it[0] in ('ref', 'deref', 'cast') or (it[0] == 'call' and len(it[2]) == 1 and it[1].split('::')[-1] in ('iter', 'into_iter', 'by_ref', 'copied', 'cloned'))):
+            it = it[1] if it[0] != 'call' else it[2][0]
+        st = strip_transparent(start)
+        if not isinstance(it, tuple) or not it:
+            continue
+        if it[0] == 'call' and it[1].split('::')[-1] == 'skip' and len(it[2]) == 2 and strip_transparent(it[2][1]) == st:
+            return strip_transparent(it[2][0])
+        sub = None
+        if it[0] == 'field' and it[2] == '0' and isinstance(it[1], tuple) and it[1][0] == 'downcast' and it[1][2] == 'Some':
+            g = it[1][1]
+            while isinstance(g, tuple) and g and g[0] in ('ref', 'deref'):
+                g = g[1]
+            if isinstance(g, tuple) and g[0] == 'call' and g[1].split('::')[-1] == 'get' and g[1].startswith('core::slice::') and len(g[2]) == 2:
+                sub = g
+        elif it[0] == 'call' and it[1].split('::')[-1] == 'index' and len(it[2]) == 2:
+            sub = it
+        if sub is not None:
+            r = sub[2][1]
+            if isinstance(r, tuple) and r[0] == 'agg' and r[1].startswith('std::ops::RangeFrom') and strip_transparent(r[2].get('start')) == st:
+                return strip_transparent(sub[2][0])
+    return None
+
+
 def term_duration_ms(t, facts=None):
     """fold a term to milliseconds if it is a Duration constant expression"""
     if not isinstance(t, tuple):
@@ -1164,6 +1201,10 @@ def simplify_call(term, c, t):
             if ax == ay and derived:
                 same = x[3] == y[3]
                 return ('int', int(same == (last == 'eq')), None)
+    if c['path'].endswith('Try::branch') and args and isinstance(args[0], tuple) and args[0] and args[0][0] == 'call' and isinstance(args[0][1], str) \
+            and args[0][1].startswith('<std::result::Result<') and args[0][1].endswith('::from_residual') and path.startswith('<std::result::Result<'):
+        # `?` applied to what an inner `?` produced on its error exit: Result::from_residual always builds an Err
+        return ('agg', 'std::ops::ControlFlow::Break', FrozenDict((('0', args[0]),)), 1)
     if args and isinstance(args[0], tuple) and args[0] and args[0][0] == 'agg' and isinstance(args[0][1], str):
         a0 = args[0]
         if a0[1] in ('std::option::Option::Some', 'std::option::Option::None'):
